@@ -1734,7 +1734,7 @@ LEVEL_TEXT = (
     "Var(long)/Var(unsigned long), Var(Array<T>), Var(initializer_list<T>), Var(Dic<T>), Var::array({..}), typed and Var assignment with "
     "the source REFERENCE evaluated before the target path (as the C++ does), auto-creating operator[], <<, resize, removeAt, remove, "
     "clear, extend, clone, ==, toString): "
-    "(1) accessors_* (int, unsigned, Long and native long/unsigned long, double, float, bool, string): DEFINITIONAL restatements of the "
+    "(1) accessors_* (int, unsigned, Long and native long/unsigned long, double, float, bool, string; see (6b) for the conversions): DEFINITIONAL restatements of the "
     "model's constructor/accessor definitions (type tag, value, unsigned >= 2^31 -> NUMBER, long outside the int range -> NUMBER, inline "
     "strings exactly below 8 bytes) — they say what the model is, and are validated against the library only by K (literal sweeps over "
     "every numeric boundary and string length). accessors_long / accessors_native_long use their hypothesis |x| < 2^53: there the stored "
@@ -1764,7 +1764,23 @@ LEVEL_TEXT = (
     "the given values; after Var::array({a,b,..}) an ARRAY whose elements denote the trees of the given Vars (containers shared and "
     "counted); the invariant holds; "
     "(6) clone_deep_partial: clone() only appends blocks, denotes the same tree, and denotes it in every later heap "
-    "that keeps the appended blocks, whatever happens to everything the original reaches; "
+    "that keeps the appended blocks, whatever happens to everything the original reaches; clone_isolated (extension round, full, over "
+    "all histories): in the state after an executed root k = q.clone() root k OWNS exactly the appended blocks (Iso: its handle and every "
+    "handle stored in them point to them; no other root and no other block holds a handle to any of them; cloneFresh); "
+    "clone_deep_history: after an executed clone, NO history of statements that do not mention root k and whose one-statement footprint "
+    "is proved (StepFootprint op: root k, the cells of its blocks incl. rc, and the ownership are unchanged) changes the tree root k "
+    "denotes; StepFootprint is proved for drop, ctorLit, ctorType, ctorArr, ctorDic, copy, clone (stepFootprint_*: the statements that "
+    "re-create ANOTHER root — destroying whatever it held, incl. the clone's source — from literals, from a copy of or from a clone of "
+    "a Var under another root); clone_deep_reduction: step_footprint_full (all 22 statement kinds) implies clone_deep_exec_full; "
+    "(6b) converting accessors (extension round; hasV, getKeyV, hasTypeV, containsV are now model functions following the source's "
+    "switch over the type tag, run by the driver): is_table (is(t) over all tags), conv_int, conv_number_integer (a NUMBER/FLOAT holding an "
+    "int-range integer reads back the same through int, Long, double, bool and == the INT, both operand orders), conv_number_trunc "
+    "(double -> int truncates toward zero), conv_fixed (BOOL/NUL/NONE rows), conv_string (String/toString/length/bool, int and double "
+    "agree on plain decimal text), length_container (length() = number of elements/properties of the denoted tree), "
+    "has_iff_key_present (+ _history: in every reached state) : has(k) <=> some property has key k, has_false_on_non_object, "
+    "const_key_lookup (operator[] const / operator()(key): missing key -> none, present key -> the property; has(k,t) = is(t) of it), "
+    "const_lookup_on_other_tags (every non-container tag: none / false), contains_iff_content (contains(x) <=> the tree x denotes is one "
+    "of the element trees); K: accessor_table_cases = every type tag (empty and populated) x every accessor; "
     "(7) rarely used overloads and boundary arguments. DEFINITIONAL (unfoldings of the model's own definitions, proved by simp/rfl/decide; "
     "they document what the model does and are validated against the library only by K): accessors_ulong / ulong_above_long_range "
     "(Var(ULong), v = (ULong)u and (ULong)v up to 2^64), ctor_type_zero (Var(Var::INT|NUMBER|FLOAT|BOOL) is zero / false), "
@@ -1810,8 +1826,14 @@ LEVEL_NOTE = (
     "in the value, never shared; its allocation, in-place reuse, release and leak-freedom are checked only by K under ASan/LSan. "
     "Constructors NOT covered: Var{{\"k\", v}, ..} (initializer_list<Obj>), nested initializer lists, Array<T>/Dic<T> for T other than "
     "int, double, String (harness), Var(const char*) with embedded NUL. "
-    "Partial: clone_deep_full (kept as `def ... : Prop`; missing: a footprint theorem that later statements not mentioning the clone's "
-    "root never modify the clone's blocks). Not proved: that the driver's traversal bound h.length+2 always suffices "
+    "Partial: clone_deep_full / clone_deep_exec_full / step_footprint_full (kept as `def ... : Prop`). Proved: ownership after the clone "
+    "(clone_isolated), stability over histories of statements with a proved footprint (clone_deep_history), the footprint of the 7 "
+    "root-re-creating statements, and the reduction of the rest (clone_deep_reduction). MISSING: StepFootprint for ctorKV, ctorVars and "
+    "for the 13 statements that start with an auto-creating target path (set*, app*, resize, remove*, clear, extend): the frame of "
+    "resolveMut / relocate / opBody outside an owned set — i.e. in-place MUTATION of the original after a clone is still validated only "
+    "by K (history generator: clone followed by mutations of either side and reads of the other; seeded change C04-r3 caught). "
+    "clone_deep_full itself has no executed-clone hypothesis: a clone refused with `fuel` would leave root k shared (see next sentence). "
+    "Not proved: that the driver's traversal bound h.length+2 always suffices "
     "(roots_denote_trees gives SOME depth; a statement may be refused with `fuel`; never observed by K). "
     "Model-side choices validated only by K: the extend loop re-checks reachability of the target from each property (the harness guard "
     "refuses such calls first); a source reference that cannot be read back after the target path is reported as srcMoved; clone is "
